@@ -29,6 +29,8 @@ pub fn run(name: &str, seed: u64, rest: &[String]) -> String {
         "dbc_writer" => dbc_writer(seed),
         "blp_total" => blp_total(seed),
         "blp_mips" => blp_mips(),
+        "wdt_roundtrip" => wdt_roundtrip(seed),
+        "wdl_roundtrip" => wdl_roundtrip(seed),
         "blp_alpha" => blp_codec(seed, true),
         "blp_header" => blp_codec(seed, false),
         "mod_full" => mod_full(),
@@ -698,4 +700,83 @@ fn blp_codec(seed: u64, alpha_focus: bool) -> String {
         }
     }}}
     none(if alpha_focus { "blp_alpha" } else { "blp_header" }, tried)
+}
+
+/// WDT: write -> parse returns equal content and a second write is byte-identical (MAIN flags/area ids on
+/// off-diagonal tiles, MAID file ids on off-diagonal tiles)
+fn wdt_roundtrip(seed: u64) -> String {
+    use wow_wdt::{WdtFile, WdtReader, WdtWriter};
+    use wow_wdt::version::WowVersion;
+    use wow_wdt::chunks::maid::{MaidChunk, MaidSection};
+    let mut rng = Rng(seed ^ 0x3D7);
+    let mut tried = 0;
+    for (vname, ver, with_maid) in [("Classic", WowVersion::Classic, false), ("WotLK", WowVersion::WotLK, false), ("BfA", WowVersion::BfA, true)] {
+        for round in 0..6 {
+            tried += 1;
+            let mut w = WdtFile::new(ver);
+            let mut cells = vec![(63usize, 0usize), (0, 63), (10, 20), (62, 61)];
+            for _ in 0..round { cells.push(((rng.next() % 64) as usize, (rng.next() % 64) as usize)); }
+            for (i, &(x, y)) in cells.iter().enumerate() {
+                if let Some(e) = w.main.get_mut(x, y) { e.flags = 1 | ((i as u32) << 8); e.area_id = 0x8000_0000 | (x as u32 * 64 + y as u32); }
+            }
+            if with_maid {
+                let mut m = MaidChunk::new();
+                for (i, &(x, y)) in cells.iter().enumerate() { let _ = m.set(MaidSection::RootAdt, x, y, 1000 + i as u32); let _ = m.set(MaidSection::Tex0Adt, x, y, 5000 + (x * 64 + y) as u32); }
+                w.maid = Some(m);
+            }
+            let desc = format!("{} WDT with tiles {:?}{}", vname, cells, if with_maid { " + MAID ids" } else { "" });
+            let mut out = Vec::new();
+            if let Err(e) = WdtWriter::new(&mut out).write(&w) { return fail("wdt_roundtrip", desc, format!("write Err({})", e), "Ok".into()); }
+            let back = match WdtReader::new(std::io::Cursor::new(out.clone()), ver).read() { Ok(b) => b, Err(e) => return fail("wdt_roundtrip", desc, format!("read Err({})", e), "Ok".into()) };
+            if back.main != w.main { return fail("wdt_roundtrip", desc, "MAIN entries differ after write -> parse".into(), "equal".into()); }
+            if back.maid != w.maid {
+                let mut d = String::new();
+                if let (Some(a), Some(b)) = (&back.maid, &w.maid) { 'o: for y in 0..64 { for x in 0..64 { if a.get(MaidSection::RootAdt, x, y) != b.get(MaidSection::RootAdt, x, y) { d = format!("root id at ({},{}) is {:?}, written {:?}", x, y, a.get(MaidSection::RootAdt, x, y), b.get(MaidSection::RootAdt, x, y)); break 'o; } } } }
+                return fail("wdt_roundtrip", desc, format!("MAID differs after write -> parse: {}", d), "equal".into());
+            }
+            let mut out2 = Vec::new();
+            if WdtWriter::new(&mut out2).write(&back).is_err() || out2 != out { return fail("wdt_roundtrip", desc, "second write is not byte-identical".into(), "identical bytes".into()); }
+        }
+    }
+    none("wdt_roundtrip", tried)
+}
+
+/// WDL: sparse tiles with distinct data survive write -> parse, second write byte-identical
+fn wdl_roundtrip(seed: u64) -> String {
+    use wow_wdl::parser::WdlParser;
+    use wow_wdl::types::{HeightMapTile, HolesData};
+    use wow_wdl::{WdlFile, WdlVersion};
+    let mut rng = Rng(seed ^ 0x3D1);
+    let mut tried = 0;
+    for (vname, ver) in [("Vanilla", WdlVersion::Vanilla), ("Wotlk", WdlVersion::Wotlk), ("Legion", WdlVersion::Legion)] {
+        for round in 0..5 {
+            tried += 1;
+            let mut f = WdlFile::with_version(ver);
+            let mut tiles = vec![(5u32, 2u32), (2, 5), (63, 0), (0, 63)];
+            for _ in 0..round { tiles.push(((rng.next() % 64) as u32, (rng.next() % 64) as u32)); }
+            tiles.sort(); tiles.dedup();
+            for &(x, y) in &tiles {
+                let mut t = HeightMapTile::new();
+                for (i, v) in t.outer_values.iter_mut().enumerate() { *v = (x as i16) * 100 + (y as i16) + i as i16; }
+                for (i, v) in t.inner_values.iter_mut().enumerate() { *v = -((x as i16) * 50 + (y as i16) * 3 + i as i16); }
+                f.heightmap_tiles.insert((x, y), t);
+                let mut h = HolesData::new(); h.hole_masks[(x % 16) as usize] = (y as u16) | 0x8000; f.holes_data.insert((x, y), h);
+            }
+            let desc = format!("{} WDL with tiles {:?}", vname, tiles);
+            let p = WdlParser::with_version(ver);
+            let mut out = std::io::Cursor::new(Vec::new());
+            if let Err(e) = p.write(&mut out, &f) { return fail("wdl_roundtrip", desc, format!("write Err({})", e), "Ok".into()); }
+            let bytes = out.into_inner();
+            let back = match p.parse(&mut std::io::Cursor::new(bytes.clone())) { Ok(b) => b, Err(e) => return fail("wdl_roundtrip", desc, format!("parse Err({})", e), "Ok".into()) };
+            for &(x, y) in &tiles {
+                let a = back.heightmap_tiles.get(&(x, y)); let b = f.heightmap_tiles.get(&(x, y));
+                if a.map(|t| (&t.outer_values, &t.inner_values)) != b.map(|t| (&t.outer_values, &t.inner_values)) { return fail("wdl_roundtrip", desc, format!("heights of tile ({},{}) differ after write -> parse", x, y), "equal".into()); }
+                if back.holes_data.get(&(x, y)).map(|h| h.hole_masks) != f.holes_data.get(&(x, y)).map(|h| h.hole_masks) { return fail("wdl_roundtrip", desc, format!("holes of tile ({},{}) differ after write -> parse", x, y), "equal".into()); }
+            }
+            if back.heightmap_tiles.len() != tiles.len() { return fail("wdl_roundtrip", desc, format!("{} tiles after parse", back.heightmap_tiles.len()), format!("{}", tiles.len())); }
+            let mut out2 = std::io::Cursor::new(Vec::new());
+            if p.write(&mut out2, &back).is_err() || out2.into_inner() != bytes { return fail("wdl_roundtrip", desc, "second write is not byte-identical".into(), "identical bytes".into()); }
+        }
+    }
+    none("wdl_roundtrip", tried)
 }
